@@ -152,9 +152,9 @@ U("setopt_sec_oom_release", entry="h_setopt_sec_oom_release", func="cfg_setopt",
   label="bounded(first titled instance of an empty multi section; any allocation may fail; failing outcomes only; leak check)", props=["C07", "C18", "C02"], cost=10, **SECC)
 per_count("gettsec", replay="replay/store_sections.c", counts_quick=(0, 1, 2), counts_thorough=(0, 1, 2, 3), entry="h_gettsec", func="cfg_opt_gettsecidx, cfg_opt_gettsec", harness="harness/sections.c",
           cbmc=unw(8), label=SECTXT, props=["C09", "C11", "C02"], cost=20, **SECC)
-per_count("rmnsec", replay="replay/store_sections.c", counts_quick=(0, 1, 2), counts_thorough=(0, 1, 2, 3), entry="h_rmnsec", func="cfg_opt_rmnsec", harness="harness/sections.c",
+per_count("rmnsec", replay="replay/store_sections.c", counts_quick=(0, 1, 2, 3), counts_thorough=(0, 1, 2, 3), entry="h_rmnsec", func="cfg_opt_rmnsec", harness="harness/sections.c",
           cbmc=unw(8) + LEAK, label=SECTXT + "; index 0,1,2,7", props=["C09", "C10", "C07", "C02"], cost=30, **SECC)
-per_count("rmtsec", replay="replay/store_sections.c", counts_quick=(0, 1, 2), counts_thorough=(0, 1, 2, 3), entry="h_rmtsec", func="cfg_opt_rmtsec", harness="harness/sections.c",
+per_count("rmtsec", replay="replay/store_sections.c", counts_quick=(0, 1, 2, 3), counts_thorough=(0, 1, 2, 3), entry="h_rmtsec", func="cfg_opt_rmtsec", harness="harness/sections.c",
           cbmc=unw(8), label=SECTXT, props=["C09", "C10", "C07", "C02"], cost=30, **SECC)
 
 # ------------------------------------------------------------------ grammar (cfg_parse_internal)
@@ -172,13 +172,13 @@ U("parse_base", entry="h_parse_base", cbmc=unw(6) + NOOOM, defs={"quick": []}, e
 
 # ------------------------------------------------------------------ scanner
 U("lex_dfa", tu="lexer", harness="harness/lex_dfa.c", entry="h_lex_dfa", func="flex tables (yy_get_previous_state) vs reference automata", cbmc=unw(8) + NOOOM,
-  label="proof (loop-free: every related state pair x every byte 1..255)", props=["C03", "C02", "C15", "C06", "C05"], cost=10,
+  label="proof (loop-free: every related state pair x every byte 1..255)", props=["C03", "C02", "C15", "C06", "C05", "C01"], cost=10,
   trusted=["flex driver loop (longest match, back-up) and buffer management"])
 
 LEXTRUST = ["flex driver loop (longest match, back-up) and buffer management", "sscanf(%o/%x), getenv, isspace (C locale): assumed contracts (carriers in harness/lex_common.h)",
             "extraction of the rule actions from the generated switch (extract/extract_actions.py, must-fire checks)"]
-for _nm, _props in (("act_top", ["C03", "C02", "C06", "C08", "C15", "C05"]), ("act_dq", ["C03", "C02", "C06", "C08", "C05"]), ("act_sq", ["C03", "C02", "C06", "C08", "C05"]),
-                    ("act_env", ["C03", "C02", "C06"]), ("act_linecomment", ["C15", "C03", "C02", "C06", "C05"]), ("act_ccomment", ["C15", "C03", "C02", "C06", "C08", "C05"])):
+for _nm, _props in (("act_top", ["C03", "C02", "C06", "C08", "C15", "C05", "C01"]), ("act_dq", ["C03", "C02", "C06", "C08", "C05", "C01"]), ("act_sq", ["C03", "C02", "C06", "C08", "C05", "C01"]),
+                    ("act_env", ["C03", "C02", "C06", "C01"]), ("act_linecomment", ["C15", "C03", "C02", "C06", "C05"]), ("act_ccomment", ["C15", "C03", "C02", "C06", "C08", "C05"])):
     for _sh in range(5):
         if _nm == "act_top" and _sh not in (0, 2):
             continue        # top-level forms do not accumulate: two shapes are enough
@@ -186,7 +186,7 @@ for _nm, _props in (("act_top", ["C03", "C02", "C06", "C08", "C15", "C05"]), ("a
           defs={"quick": ["-DTOKN=4", "-DSCRATCH_SHAPE=%d" % _sh], "thorough": ["-DTOKN=6", "-DSCRATCH_SHAPE=%d" % _sh]}, cbmc=unw(50) + NOOOM,
           label="bounded(token text <= 4 bytes quick / 6 thorough over all bytes; scratch buffer shape %d of 5: unallocated / empty / 7 bytes / one byte left / full)" % _sh,
           props=_props, cost=80, trusted=LEXTRUST, replay="replay/lex_string.c" if _nm in ("act_dq", "act_sq") else None,
-          not_for=["C15"] if _nm in ("act_dq", "act_sq") else [],      # the shared obligation "returns the token kind of its form" carries the comment tag too; comments have their own units
+          not_for=["C15"] if _nm in ("act_dq", "act_sq") else (["C01"] if _nm == "act_ccomment" else []),      # the shared obligation "returns the token kind of its form" carries the comment tag too; comments have their own units
           tiers=("quick", "thorough") if (_sh in (0, 2, 4) or (_sh == 1 and _nm == "act_linecomment")) else ("thorough",))
 
 FLEXC = dict(remove=["cfg_yy_create_buffer", "cfg_yypush_buffer_state", "cfg_yypop_buffer_state"], carriers=["carriers/flex_buffers.c"])
@@ -297,7 +297,7 @@ U("parse_file", entry="h_parse_file", func="cfg_parse, cfg_parse_fp", cbmc=unw(8
   trusted=ENTTRUST, **ENT, **ENTC)
 U("cfg_include", entry="h_cfg_include", func="cfg_include", cbmc=unw(8) + NOOOM, label="proof (loop-free)", props=["C13", "C14", "C06", "C02"], cost=5, **ENT, **ENTC)
 ENTC2 = dict(remove=["cfg_parse_internal", "cfg_searchpath", "cfg_tilde_expand", "cfg_getopt"], carriers=["carriers/entry_carriers_min.c", "carriers/resolvers.c", "carriers/cfg_getopt.c"])
-U("call_function", entry="h_call_function", func="call_function, cfg_free_value", cbmc=unw(8) + OOM + LEAK, label="bounded(<= 2 arguments; the argument vector's allocation may fail)", props=["C14", "C07", "C18", "C02"], cost=20,
+U("call_function", entry="h_call_function", func="call_function, cfg_free_value", cbmc=unw(8) + OOM + LEAK, label="bounded(<= 2 arguments; the argument vector's allocation may fail)", props=["C14", "C07", "C18", "C01", "C02"], cost=20,
   **ENT, **ENTC2)
 U("init_defaults", entry="h_init_defaults", func="cfg_init_defaults", cbmc=unw(8) + NOOOM, label="bounded(one option; 14 literal kinds: type x LIST/NODEFAULT/MULTI x simple x textual default; callees by contract)",
   props=["C01", "C08", "C07", "C02"], cost=30, trusted=ENTTRUST, **ENT, **ENTC)
@@ -326,7 +326,7 @@ U("wrap_getters", entry="h_wrap_getters", func="cfg_getnint, cfg_getint, cfg_get
   props=["C09", "C01", "C11", "C15", "C02"], cost=10, **WRAPC)
 U("wrap_setters", entry="h_wrap_setters", func="cfg_setint, cfg_setnint, cfg_setfloat, cfg_setnfloat, cfg_setnbool, cfg_setbool, cfg_setstr, cfg_setnstr, cfg_setcomment, cfg_rmnsec, cfg_rmsec, cfg_rmtsec, cfg_setmulti, cfg_set_print_func",
   cbmc=unw(6) + NOOOM, remove=WSET, carriers=["carriers/cfg_getopt.c", "carriers/wrapper_carriers.c"], label="proof (loop-free wrappers; resolvers and opt-level operations by contract)",
-  props=["C09", "C10", "C11", "C14", "C15", "C19", "C07", "C02"], cost=10, **WRAPC)
+  props=["C09", "C10", "C11", "C14", "C15", "C19", "C16", "C07", "C02"], cost=10, **WRAPC)
 U("wrap_print", replay="replay/print_layout.c", entry="h_wrap_print", func="cfg_print, cfg_print_indent, cfg_opt_print, cfg_opt_print_indent", cbmc=unw(6) + NOOOM, remove=WSET, carriers=["carriers/cfg_getopt.c", "carriers/wrapper_carriers.c"],
   label="proof (loop-free wrappers; the printers by contract)", props=["C19", "C05", "C02"], cost=5, **WRAPC)
 U("null_opt", entry="h_null_opt", func="cfg_opt_getnint, cfg_opt_getnfloat, cfg_opt_getnbool, cfg_opt_getnstr, cfg_opt_getnptr, cfg_opt_getnsec, cfg_opt_gettsec, cfg_opt_size, cfg_opt_getcomment, cfg_opt_name, cfg_opt_setnint, cfg_opt_setnfloat, cfg_opt_setnbool, cfg_opt_setnstr, cfg_opt_setcomment, cfg_opt_setmulti, cfg_opt_rmnsec, cfg_opt_rmtsec, cfg_free_value, cfg_setopt, call_function",
